@@ -47,6 +47,7 @@ Further sections:
 import Earverif.Proofs.C15
 import Earverif.Proofs.C15Doc
 import Earverif.Proofs.C15Raise
+import Earverif.Proofs.C15Timeline
 
 set_option linter.unusedSimpArgs false
 
@@ -169,11 +170,28 @@ theorem fix_within_object (objs : List Obj) (bs out : List Block) (ws : List War
   (post_of_ok h hf).within
 
 /-- The renderer's timing checks (`block_start_end` + the interpolation checks of
-`InterpretObjectMetadata`) accept the repaired channel for every object referencing it. -/
+`InterpretObjectMetadata`) accept the repaired channel for every object referencing it.  `accepted` is
+the compact per-channel transliteration in `Model/TimingFix.lean`; it is PROVED equal to the outcome of
+the interpreter models C02/C03 use (`accepted_eq_interpreters`), see the next theorem. -/
 theorem fix_accepted_by_renderer (objs : List Obj) (bs out : List Block) (ws : List Warn)
     (h : Hyp objs bs) (ha : HypAccept objs bs) (hf : fixTimings objs bs = .ok (out, ws)) :
     ∀ o ∈ objs, accepted o out = .ok :=
   (post_of_ok h hf).accept ha
+
+/-- The same clause stated on the interpreter models C02/C03 render with (`Model/Timeline.lean`), through
+`accepted_eq_interpreters` (`Proofs/C15Timeline.lean`): fed block by block to a fresh
+`InterpretObjectMetadata` (Objects channel) resp. `InterpretDirectSpeakersMetadata` (DirectSpeakers
+channel) with the object's start / duration as `extra_data`, at any sample rate, no block of the
+repaired channel raises. -/
+theorem fix_accepted_by_timeline_interpreters (sr : Nat) (objs : List Obj) (bs out : List Block)
+    (ws : List Warn) (h : Hyp objs bs) (ha : HypAccept objs bs) (hf : fixTimings objs bs = .ok (out, ws)) :
+    ∀ o ∈ objs,
+      ((∀ b ∈ out, b.isObjects = true) → runObject sr {} (out.map (toMeta o)) = .ok) ∧
+      ((∀ b ∈ out, b.isObjects = false) → runFixed sr {} (out.map (toMeta o)) = .ok) := by
+  intro o ho
+  have hacc := fix_accepted_by_renderer objs bs out ws h ha hf o ho
+  exact ⟨fun hb => by rw [(accepted_eq_interpreters sr o out).1 hb]; exact hacc,
+         fun hb => by rw [(accepted_eq_interpreters sr o out).2 hb]; exact hacc⟩
 
 /-- Repairing again changes nothing: `fix (fix b) = fix b` … -/
 theorem fix_idempotent (objs : List Obj) (bs out : List Block) (ws : List Warn) (h : Hyp objs bs)
@@ -889,6 +907,14 @@ example : fixTimings exObjs exBlocks =
          [⟨.expanded, 0⟩, ⟨.ilContracted, 0⟩, ⟨.endAdvanced, 2⟩, ⟨.endAdvanced, 2⟩]) := by decide +kernel
 
 example : accepted ⟨some 1, some (q 99 100)⟩ exBlocks = .interpTooLong := by decide +kernel
+
+/-- the Timeline interpreter model evaluated (48 kHz): the unrepaired channel raises "interpolation
+length is longer than block", the repaired one (see the example above) raises nothing -/
+example : runObject 48000 {} (exBlocks.map (toMeta ⟨some 1, some (q 99 100)⟩)) = .interpTooLong ∧
+    runObject 48000 {}
+      ([ob (some 0) (some (q 34 100)) true (some (q 34 100)), ob (some (q 34 100)) (some (q 33 100)),
+        ob (some (q 67 100)) (some (q 31 100))].map (toMeta ⟨some 1, some (q 99 100)⟩)) = .ok ∧
+    (∀ b ∈ exBlocks, b.isObjects = true) := by decide +kernel
 
 /-- Non-vacuity of the untimed case. -/
 example : Hyp [⟨some 1, some 1⟩] [ob none none true (some 2)] :=
